@@ -355,3 +355,19 @@ def _transition_predicates(model, rep, mod, ref, jit):
     rep.ob('transition-predicate-agreement', mod, jt, 'forbidden jumps get an infinite barrier', bool(inf),
            '' if inf else 'forbidden transitions are not marked infinite (a stale barrier from an earlier call is reported)', engine='siblings',
            qual='MonteCarloSampler_jit.transitions')
+
+
+CL = 'onsager/cluster.py'
+BREAKERS = [
+    (CL, "    ('index', int64[:])\n]", "    ('indexx', int64[:])\n]", 'spec-table'),
+    (CL, "                                     self.occ.copy(), self.clustercount.copy(), self.dcluster.copy(),", "                                     self.clustercount.copy(), self.occ.copy(), self.dcluster.copy(),", 'copy-order'),
+    (CL, "                self.jump_Q[n] = np.inf", "                self.jump_Q[n] = np.Inf", 'external-names'),
+    (CL, "        self.occ[occsite] = 1\n        self.occ[unoccsite] = 0\n        # change the cluster counts:\n        for m in range(self.Ninteract[occsite]):\n            self.clustercount[self.siteinteract[occsite, m]] -= 1",
+     "        self.occ[occsite] = 1\n        self.occ[unoccsite] = 0\n        # change the cluster counts:\n        for m in range(self.Ninteract[occsite]):\n            self.clustercount[self.siteinteract[occsite, m]] += 1", 'sign-agreement'),
+    (CL, "        self.index[unoccsite] = i  # index of unoccsite in unoccupied_set", "        self.index[unoccsite] = j  # index of unoccsite in unoccupied_set", 'swap-bookkeeping'),
+    (CL, "            if dE < kTlogu[i]:\n                self.update(occ_trial, unocc_trial)", "            if dE < kTlogu[i]:\n                self.update(unocc_trial, occ_trial)", 'batched-metropolis'),
+    (CL, "    param['Nunocc'] = Nunocc\n", "", 'spec-table'),
+    (CL, "            if self.occ[self.jump_ij[n][0]] == -1 or \\\n                    (self.occ[self.jump_ij[n][0]] == 1 and self.occ[self.jump_ij[n][1]] == 0):",
+     "            if (self.occ[self.jump_ij[n][0]] == 1 and self.occ[self.jump_ij[n][1]] == 0):", 'transition-predicate-agreement'),
+]
+NEUTRALS = []
